@@ -290,6 +290,8 @@ def run(idx: ProgramIndex, rep: Report, tier: str):
     conditional_attributes(idx, rep)
     getitem_index_forms(idx, rep, M)
     scale_tril_is_triangular(idx, rep, M)
+    argument_reshapes(idx, rep, M)
+    initialises_what_it_creates(idx, rep)
 
 
 # ---- C10-5: a Cholesky factor carried over into a new distribution ------------------------------------------------------
@@ -864,3 +866,80 @@ def scale_tril_is_triangular(idx: ProgramIndex, rep: Report, M: ClassInfo):
             "the slot is filled with a Cholesky factor of the lazy covariance" if not probs else
             "%s fills the scale_tril slot of torch's MultivariateNormal with a general root: log_prob on the Cholesky path, entropy, scale_tril, precision_matrix (and everything after expand / unsqueeze) treat it as triangular - wrong values for RootLinearOperator(R) with a non-triangular R, an error for a non-square root" % "; ".join(probs), {})
     rep.floor("C10-11", "scale_tril slot", 1, 1)
+
+
+# ---- C10-12 --------------------------------------------------------------------------------------------------------
+_MAKES_CONTIGUOUS = {"contiguous", "clone", "reshape", "flatten", "to_dense"}
+
+
+def argument_reshapes(idx: ProgramIndex, rep: Report, M: ClassInfo):
+    """The caller's base samples are documented only by their shape (*sample_shape x *batch_shape x N).  (a) `.view` additionally needs
+    compatible strides: an expanded or transposed tensor of the documented shape makes it raise - arguments are re-shaped with reshape
+    (or made contiguous first).  (b) A re-shape that folds the leading dimensions (`-1, ..., LAST`) keeps the elements of one base
+    vector together only if LAST is the argument's own trailing size; taking it from another tensor (the covariance root, whose width is
+    smaller for low-rank / Lanczos roots - the very case the code adjusts for afterwards) regroups the numbers or fails."""
+    rep.rule("C10-12", "tensor arguments of the sampling methods are re-shaped by shape only: no .view on the caller's (possibly non-contiguous) tensor, and a fold of the leading dimensions keeps the argument's own trailing size")
+    classes = [M] + [c for c in idx.subclasses(M) if c is not M]
+    n = 0
+    for cls in classes:
+        for name in ("rsample", "sample", "log_prob", "get_base_samples"):
+            fi = cls.methods.get(name)
+            if fi is None:
+                continue
+            params = set(fi.params[1:]) | {a.arg for a in fi.node.args.kwonlyargs}
+            if not params:
+                continue
+            # line of the first statement after which the name holds a contiguous tensor of its own
+            safe_from: Dict[str, int] = {}
+            for a in ast.walk(fi.node):
+                if isinstance(a, ast.Assign) and len(a.targets) == 1 and isinstance(a.targets[0], ast.Name) and a.targets[0].id in params:
+                    outer = a.value
+                    if isinstance(outer, ast.Call) and isinstance(outer.func, ast.Attribute) and outer.func.attr in _MAKES_CONTIGUOUS:
+                        safe_from.setdefault(a.targets[0].id, a.lineno)
+            for c in ast.walk(fi.node):
+                if not (isinstance(c, ast.Call) and isinstance(c.func, ast.Attribute) and c.func.attr in ("view", "reshape") and isinstance(c.func.value, ast.Name) and c.func.value.id in params):
+                    continue
+                p = c.func.value.id
+                n += 1
+                probs = []
+                if c.func.attr == "view" and not (p in safe_from and safe_from[p] < c.lineno):
+                    probs.append("`%s.view(...)` needs compatible strides: an expanded / transposed tensor of the documented shape raises (use reshape)" % p)
+                if c.args and isinstance(c.args[0], ast.UnaryOp) and isinstance(c.args[0].op, ast.USub) and len(c.args) >= 2:
+                    last = c.args[-1]
+                    foreign = [x for x in ast.walk(last) if isinstance(x, ast.Name) and x.id not in params and x.id != fi.params[0]]
+                    own = any(isinstance(x, ast.Name) and x.id == p for x in ast.walk(last))
+                    if foreign and not own and not isinstance(last, ast.Starred):
+                        probs.append("the fold of the leading dimensions takes its trailing size from `%s`, not from `%s` itself: whenever the two differ (a root narrower than the event size) the base vectors are regrouped or the call raises" % (src(last), p))
+                rep.add("C10-12", "%s:%s.%s[%s.%s]" % (cls.module.name, cls.qualname, name, p, c.func.attr), "%s:%d" % (fi.module.relpath, c.lineno), not probs,
+                        "re-shaped by shape only" if not probs else "; ".join(probs), {})
+    rep.floor("C10-12", "re-shapes of tensor arguments in the sampling methods", n, 2)
+
+
+# ---- C10-13 --------------------------------------------------------------------------------------------------------
+def initialises_what_it_creates(idx: ProgramIndex, rep: Report):
+    """expand / unsqueeze of the distribution classes create the result with `_get_checked_instance` / `__new__` and run torch's
+    constructor on it explicitly: `super(Cls, new).__init__(...)`.  The zero-argument form `super().__init__(...)` (or self.__init__)
+    inside such a method initialises the RECEIVER: d.expand((3,)) changes d.batch_shape and returns an object without _batch_shape."""
+    rep.rule("C10-13", "a distribution method that creates its result (expand, unsqueeze, ...) runs the base constructor on the new object, never on the receiver")
+    n = 0
+    for mi in sorted(idx.modules.values(), key=lambda m: m.name):
+        if not mi.name.startswith(idx.package + ".distributions"):
+            continue
+        # every class of the module, including fall-back classes defined under try / except ImportError
+        for cdef in [x for x in ast.walk(mi.tree) if isinstance(x, ast.ClassDef)]:
+            for fdef in [x for x in cdef.body if isinstance(x, ast.FunctionDef)]:
+                if fdef.name == "__init__" or not fdef.args.args:
+                    continue
+                sn = fdef.args.args[0].arg
+                nested = {id(x) for d in ast.walk(fdef) if isinstance(d, (ast.FunctionDef, ast.ClassDef)) and d is not fdef for x in ast.walk(d)}
+                for c in ast.walk(fdef):
+                    if id(c) in nested or not (isinstance(c, ast.Call) and isinstance(c.func, ast.Attribute) and c.func.attr == "__init__"):
+                        continue
+                    n += 1
+                    recv = c.func.value
+                    on_self = (isinstance(recv, ast.Name) and recv.id == sn) or \
+                        (isinstance(recv, ast.Call) and chain(recv.func) == "super" and (len(recv.args) == 0 or (len(recv.args) == 2 and isinstance(recv.args[1], ast.Name) and recv.args[1].id == sn)))
+                    rep.add("C10-13", "%s:%s.%s[__init__ call]" % (mi.name, cdef.name, fdef.name), "%s:%d" % (mi.relpath, c.lineno), not on_self,
+                            "the constructor runs on the object the method created" if not on_self else
+                            "`%s` re-initialises the receiver: d.%s(...) changes d itself (its batch shape) and the returned object never gets the state the constructor sets (AttributeError on batch_shape / log_prob)" % (src(c)[:60], fdef.name), {})
+    rep.floor("C10-13", "constructor calls inside non-constructor methods of the distribution classes", n, 3)
